@@ -251,6 +251,8 @@ func runCheck(cfg *propertyConfig, tier, repo string, seed int) int {
 	}
 
 	nObl, nDis := 0, 0
+	nBounded, boundedOK := 0, 0 // bounded stand-ins: reported, never counted as proved
+	boundedWhy := map[string]string{}
 	var violations []string
 	var knownHit []string
 	knownObls := 0
@@ -357,6 +359,22 @@ func runCheck(cfg *propertyConfig, tier, repo string, seed int) int {
 		}
 		okAll := true
 		for _, o := range r.Obls {
+			if o.Bounded != "" {
+				// a bounded stand-in (one fixed shape): must hold, is reported, is never counted as proved
+				nBounded++
+				fe.SolverS += o.Seconds
+				if o.Kind != "vacuity" && o.Status != "unsat" || o.Kind == "vacuity" && o.Status == "unsat" {
+					okAll = false
+					if isKnown(o.Name) != nil {
+						nObl++ // cancelled by the subtraction of the known findings below
+					}
+					fail(o.Name, "bounded obligation not discharged ("+o.Status+")", o.Output, o)
+				} else {
+					boundedOK++
+				}
+				boundedWhy[r.Name] = o.Bounded
+				continue
+			}
 			nObl++
 			fe.Obligations++
 			fe.SolverS += o.Seconds
@@ -471,6 +489,8 @@ func runCheck(cfg *propertyConfig, tier, repo string, seed int) int {
 			"lemmas_proved":      ln,
 			"samples":            samples,
 			"known_findings_hit": knownHit,
+			"bounded": map[string]interface{}{"obligations": nBounded, "discharged": boundedOK, "functions": boundedWhy,
+				"note": "bounded stand-ins (one fixed shape, loops unwound): they must hold for the check to pass but are NOT part of obligations / discharged above and are not proofs"},
 		},
 	}
 	// thorough tier on the real tree: must-fail self-test.  Every seeded property-breaking change
